@@ -212,6 +212,9 @@ fn aux_alphabet() -> Vec<Letter> {
         al.push(Letter::many(vec![a(Some(2), &v), u(Some(2), "ACS", "GASNATURAL", &k(&[1, 1])), u(Some(2), "CAL", "GASNATURAL", &k(&[1, 1])), o(2, "ACS", &k(&[1, 1])), o(2, "CAL", &k(&[1, 3]))]));
         al.push(Letter::many(vec![a(Some(2), &v), u(Some(2), "CAL", "GASNATURAL", &k(&[1, 1])), u(Some(2), "REF", "ELECTRICIDAD", &k(&[1, 1])), o(2, "CAL", &k(&[3, 0])), o(2, "REF", &[-100, -100])]));
     }
+    // an idle system: auxiliaries and outputs declared but zero at every step
+    al.push(Letter::one(a(Some(1), &k(&[0, 0]))));
+    al.push(Letter::many(vec![o(1, "ACS", &k(&[0, 0])), o(1, "CAL", &k(&[0, 0]))]));
     // non-EPB and cogeneration uses on system 1: they are not services the auxiliaries can go to
     al.push(Letter::one(u(Some(1), "NEPB", "ELECTRICIDAD", &k(&[2, 2]))));
     al.push(Letter::many(vec![u(Some(1), "COGEN", "GASNATURAL", &k(&[4, 4])), p(Some(1), "EL_COGEN", &k(&[1, 1]))]));
@@ -224,7 +227,7 @@ fn aux_alphabet() -> Vec<Letter> {
 
 pub fn run(ctx: &Ctx) -> i32 {
     let shared = Shared::new("C06", ctx);
-    let depth = if ctx.quick() { 6 } else { 9 };
+    let depth = if ctx.quick() { 6 } else { 8 };
     explore(ctx, &format!("AUX wide depth<={depth}"), Wide { alphabet: aux_alphabet(), bases: alpha::bases(false), max_add: depth, repeat: false }, C06, shared.clone());
     let seeded: Vec<Letter> = vec![
         Letter::one(a(Some(7), &vec![100; 12])),
